@@ -8,6 +8,7 @@ package zap
 
 import (
 	"encoding/binary"
+	"sort"
 
 	"github.com/RoaringBitmap/roaring/v2"
 	"github.com/blevesearch/vellum"
@@ -249,6 +250,77 @@ func (f *lFile) stored(doc uint64) (id []byte, vals []sStoredVal) {
 	return id, vals
 }
 
+// docValues decodes the doc-value block of a field (zap.md, "Doc Values"): per chunk a uvarint count, (doc,
+// end offset) pairs and snappy-compressed data; then the chunks' cumulative end offsets as uvarints; the last
+// 16 bytes are the byte length of that offset array and the number of chunks (two big-endian 64-bit numbers,
+// in this order). Terms of a document are each followed by the separator byte 0xff.
+func (f *lFile) docValues(field string) (perDoc map[uint64][]string, present bool) {
+	fid := f.fieldID(field)
+	if fid < 0 {
+		return nil, false
+	}
+	addr := f.secAddr[fid][0]
+	if addr == 0 {
+		return nil, false
+	}
+	b := f.b
+	dvStart, p := lUvarint(b, addr)
+	dvEnd, _ := lUvarint(b, p)
+	if dvStart == lNone || dvEnd == lNone || dvStart == dvEnd {
+		return nil, false
+	}
+	vAssert(dvEnd >= dvStart+16, "layout-dv-trailer-present")
+	numChunks := binary.BigEndian.Uint64(b[dvEnd-8 : dvEnd])
+	offsLen := binary.BigEndian.Uint64(b[dvEnd-16 : dvEnd-8])
+	vAssert(vIsConcrete(numChunks) && vIsConcrete(offsLen), "layout-dv-trailer-concrete")
+	vAssert(dvStart+offsLen+16 <= dvEnd, "layout-dv-offsets-fit")
+	op := dvEnd - 16 - offsLen
+	var ends []uint64
+	for i := uint64(0); i < numChunks; i++ {
+		var e uint64
+		e, op = lUvarint(b, op)
+		ends = append(ends, e)
+	}
+	vAssert(op == dvEnd-16, "layout-dv-offsets-bytes")
+	perDoc = map[uint64][]string{}
+	prev := uint64(0)
+	for _, e := range ends {
+		if e == prev {
+			continue // a chunk without data for this field
+		}
+		cp := dvStart + prev
+		cEnd := dvStart + e
+		prev = e
+		n, q := lUvarint(b, cp)
+		var docs, offs []uint64
+		for i := uint64(0); i < n; i++ {
+			var d, o uint64
+			d, q = lUvarint(b, q)
+			o, q = lUvarint(b, q)
+			docs = append(docs, d)
+			offs = append(offs, o)
+		}
+		un, err := snappy.Decode(nil, b[q:cEnd])
+		vAssert(err == nil, "layout-dv-snappy")
+		last := uint64(0)
+		for i, d := range docs {
+			data := un[last:offs[i]]
+			last = offs[i]
+			var terms []string
+			start := 0
+			for j := range data {
+				if data[j] == 0xff {
+					terms = append(terms, string(data[start:j]))
+					start = j + 1
+				}
+			}
+			vAssert(start == len(data), "layout-dv-term-terminated")
+			perDoc[d] = terms
+		}
+	}
+	return perDoc, true
+}
+
 // lCheckAgainstSpec: the file decodes, by the documented layout alone, to the content that went in.
 func lCheckAgainstSpec(file []byte, sp *sSpec, mode uint32, tag string) {
 	lCheckAgainstSpecX(file, sp, mode, tag, true)
@@ -287,6 +359,24 @@ func lCheckAgainstSpecX(file []byte, sp *sSpec, mode uint32, tag string, withCRC
 					vAssert(vAnd(vAnd(l.pos == el.pos, l.start == el.start), l.end == el.end), tag+"layout-loc-numbers")
 					vAssert(u64sEq(l.ap, el.ap), tag+"layout-loc-ap")
 				}
+			}
+		}
+	}
+	// doc values (the numbers inside them - offsets - are layout and concrete; terms are concrete strings)
+	dvDecoded := map[string]map[uint64][]string{}
+	for d, ds := range sp.docs {
+		for _, e := range ds.dv {
+			if _, ok := dvDecoded[e.field]; !ok {
+				m, _ := f.docValues(e.field)
+				dvDecoded[e.field] = m
+			}
+			got := append([]string(nil), dvDecoded[e.field][uint64(d)]...)
+			want := append([]string(nil), e.terms...)
+			sort.Strings(got)
+			sort.Strings(want)
+			vAssert(len(got) == len(want), tag+"layout-dv-n")
+			for i := range want {
+				vAssert(got[i] == want[i], tag+"layout-dv-term")
 			}
 		}
 	}
